@@ -77,6 +77,7 @@ type Facts struct {
 	ApiShared     []Site            `json:"api_shared_state_access"`
 	GoStmts       []Site            `json:"go_statements"`
 	TimeNow       []Site            `json:"time_now"`
+	PackageVars   []string          `json:"package_vars"`
 	Missing       []string          `json:"missing"`
 }
 
